@@ -157,7 +157,9 @@ func (l *GradientLimit) OnSample(startTime int64, rtt int64, inFlight int, didDr
 		if l.resetRTTCounter <= 0 {
 			l.resetRTTCounter = nextProbeCountdown(l.probeInterval)
 
-			l.estimatedLimit = math.Max(float64(l.minLimit), float64(queueSize))
+			// the probe cuts the limit down to the queue allowance; it never raises an estimate that is
+			// already below it
+			l.estimatedLimit = math.Min(l.estimatedLimit, math.Max(float64(l.minLimit), float64(queueSize)))
 			l.rttNoLoadMeasurement.Reset()
 			l.logger.Debugf("probe minRTT limit=%d", int(l.estimatedLimit))
 			l.notifyListeners(l.estimatedLimit)
@@ -196,6 +198,10 @@ func (l *GradientLimit) OnSample(startTime int64, rtt int64, inFlight int, didDr
 		newLimit = math.Max(float64(l.minLimit), l.estimatedLimit*(1-l.smoothing)+l.smoothing*newLimit)
 	}
 	newLimit = math.Max(float64(queueSize), math.Min(float64(l.maxLimit), newLimit))
+	if didDrop && newLimit > l.estimatedLimit {
+		// the queue-allowance floor must not turn a drop into an increase
+		newLimit = l.estimatedLimit
+	}
 
 	if int(newLimit) != int(l.estimatedLimit) && l.logger.IsDebugEnabled() {
 		l.logger.Debugf("new limit=%d, minRtt=%d ms, winRtt=%d ms, queueSize=%d, gradient=%0.4f, resetCounter=%d",
